@@ -92,7 +92,7 @@ package server
 //@   requires ctx != nil && cfg.Mux != nil && cfg.WhoIs != nil
 //@   requires cfg.DB != nil ==> dbInv(cfg.DB)
 //@   requires cfg.DB == nil ==> ((diskHas(disk, cfg.DBPath) ==> wfClear(clearOfFile(diskData(disk, cfg.DBPath), cfg.Key))) && (cfg.AuditLog != nil ==> cfg.AuditLog.enc != nil))
-//@   ensures [C08 new.server-ready] err == nil ==> (ret != nil && fresh(ret) && ret.db != nil && dbInv(ret.db) && ret.whois == cfg.WhoIs && ret.whois != nil && (cfg.DB != nil ==> ret.db == cfg.DB))
+//@   ensures [C08 new.server-ready] err == nil ==> (ret != nil && fresh(ret) && ret.db != nil && dbInv(ret.db) && ret.whois == cfg.WhoIs && ret.whois != nil && ret.tmpl != nil && (cfg.DB != nil ==> ret.db == cfg.DB))
 //@   ensures [C17 new.backup-iff-bucket] err == nil ==> (spawned("(*server.Server).periodicBackup") == (cfg.BackupBucket != ""))
 //@   ensures [C17 new.no-backup-on-failure] err != nil ==> (!spawned("(*server.Server).periodicBackup") && ret == nil)
 //@   ensures [C03,C05 new.db-file-readonly] old(diskHas(disk, cfg.DBPath)) ==> disk == old(disk)
@@ -150,6 +150,15 @@ package server
 //@   ensures [C08 endpoint.deleteSecret.non200-constant-body] respStatus != 200 ==> constBody(respBody)
 //@   ensures [C08 endpoint.deleteSecret.one-operation] fnCalls == old(fnCalls) || fnCalls == old(fnCalls) + 1
 //@   at call serveJSON: assert [C08 endpoint.deleteSecret.closure-pre] arg_s == s && arg_r == r && arg_s != nil && dbInv(arg_s.db) && fnName(arg_fn) == "(*server.Server).deleteSecret$1"
+
+// ---- the dashboard: a GET-only listing that goes through the same identity and ACL checks ---------
+//@ func (*Server).htmlList(s, w, r)
+//@   requires s != nil && dbInv(s.db) && r != nil && r.URL != nil && s.whois != nil && s.tmpl != nil && w != nil && respStatus == 0 && respBody == ""
+//@   ensures [C08 dashboard.get-only] r.Method != "GET" ==> (respStatus == 400 && whoisCalls == old(whoisCalls) && auditLog == old(auditLog))
+//@   ensures [C08 dashboard.unidentified] (whoisCalls != old(whoisCalls) && lastWhoErr != nil) ==> (respStatus == 500 && respBody == "unable to identify caller\n" && auditLog == old(auditLog))
+//@   ensures [C01,C08 dashboard.never-writes] dbInv(s.db) && noEffect(s.db)
+//@   ensures [C06,C08 dashboard.reads-only-as-identified-caller] auditLog != old(auditLog) ==> (r.Method == "GET" && whoisCalls == old(whoisCalls) + 1 && lastWhoErr == nil)
+//@   at call List: assert [C01,C08 dashboard.lists-as-caller] permsFrom(arg_caller, lastWho.CapMap) && call_getIdentity_1 == nil
 
 // ---- backups ------------------------------------------------------------------------------------
 //@ func (*Server).doBackup(s, ctx) (err)
